@@ -38,6 +38,16 @@ def plan(tier, seed):
     # wide_integer storage
     for ld, rd in [(100, 100), (200, 40), (40, 200), (126, 126), (300, 300)]:
         regs.append('c05::Bin<%s, %s, true>::reg("%d_wide31|%d_wide31")' % (el(ld, 'cnl::wide_integer<31>'), el(rd, 'cnl::wide_integer<31>'), ld, rd))
+    # results whose digit count is an exact multiple of the limb width of a signed multi-word storage type
+    for ld, rd in [(64, 64), (80, 80), (96, 96), (127, 127), (128, 31), (64, 72)]:
+        regs.append('c05::Bin<%s, %s, true>::reg("%d_wide31|%d_wide31")' % (el(ld, 'cnl::wide_integer<31>'), el(rd, 'cnl::wide_integer<31>'), ld, rd))
+    regs.append('c05::Bin<%s, %s, true>::reg("64_wide7i8|72_wide7i8")' % (el(64, 'cnl::wide_integer<7, signed char>'), el(72, 'cnl::wide_integer<7, signed char>')))
+    # elastic_scaled_integer pairs with different digit counts, exponents and signedness
+    for (d1, e1, n1, d2, e2, n2) in [(20, -20, 'int', 20, 0, 'int'), (20, 0, 'int', 20, -20, 'int'), (16, -8, 'int', 16, -8, 'unsigned'), (31, -16, 'int', 8, 0, 'unsigned'),
+                                     (40, -20, 'int', 10, 3, 'int'), (8, 0, 'unsigned', 63, -31, 'int'), (24, 4, 'int', 24, -4, 'unsigned'), (15, -30, 'signed char', 15, 10, 'int'),
+                                     (60, -10, 'int', 60, -50, 'int'), (7, -3, 'unsigned char', 7, 2, 'signed char')]:
+        regs.append('c05::Esi<cnl::elastic_scaled_integer<%d, cnl::power<%d>, %s>, cnl::elastic_scaled_integer<%d, cnl::power<%d>, %s>>::reg("%d_%s:%d|%d_%s:%d")'
+                    % (d1, e1, n1, d2, e2, n2, d1, short(n1), e1, d2, short(n2), e2))
     for d in (1, 7, 8, 16, 31, 32, 40, 63, 100):
         for n in ('int', 'unsigned'):
             for sh in (1, 3, 8, 20):
